@@ -9,6 +9,7 @@ import ScnrVerif.Model.Build
 import ScnrVerif.Model.Json
 import ScnrVerif.Model.Dot
 import ScnrVerif.Model.Minimize
+import ScnrVerif.Model.Compile
 import Std.Data.HashMap
 /-!
 # Line-protocol driver for the executable model (`lake exe scnr_model < case.in`)
@@ -59,6 +60,9 @@ structure DState where
   etables : Array (List (Nat × Nat)) := #[]
   cls : Option (Bool × CSet) := none
   real : List (Nat × Nat) := []
+  /-- track A: patterns for the compiler model, per mode `(tid, ast)`; lookaheads `(tid, ast)` -/
+  cpats : Array (List (Nat × CAst)) := #[]
+  clapats : Array (List (Nat × CAst)) := #[]
   /-- auxiliary automata (minimizer input / output) -/
   aux : Array Dfa := #[]
   iters : Array Iter := #[]
@@ -481,6 +485,30 @@ where
           (pats n r3).map fun (ps, r4) => (⟨pat, tid, some ⟨pos != "0", la⟩⟩ :: ps, r4)
       | _ => none
 
+/-- Parser of `CAst`: `E | L id | C n .. | A n .. | Q x | S x | P x | X n x | T n x | B m n x` -/
+partial def parseCAst : List String → Option (CAst × List String)
+  | "E" :: r => some (.empty, r)
+  | "L" :: i :: r => i.toNat?.map fun i => (.leaf i, r)
+  | "C" :: n :: r => n.toNat?.bind fun n => (manyC n r).map fun (xs, r') => (.concat xs, r')
+  | "A" :: n :: r => n.toNat?.bind fun n => (manyC n r).map fun (xs, r') => (.alt xs, r')
+  | "Q" :: r => (parseCAst r).map fun (x, r') => (.opt x, r')
+  | "S" :: r => (parseCAst r).map fun (x, r') => (.star x, r')
+  | "P" :: r => (parseCAst r).map fun (x, r') => (.plus x, r')
+  | "X" :: n :: r => n.toNat?.bind fun n => (parseCAst r).map fun (x, r') => (.exactly n x, r')
+  | "T" :: n :: r => n.toNat?.bind fun n => (parseCAst r).map fun (x, r') => (.atLeast n x, r')
+  | "B" :: m :: n :: r =>
+    m.toNat?.bind fun m => n.toNat?.bind fun n => (parseCAst r).map fun (x, r') => (.bounded m n x, r')
+  | _ => none
+where
+  manyC : Nat → List String → Option (List CAst × List String)
+    | 0, r => some ([], r)
+    | n + 1, r => (parseCAst r).bind fun (x, r') => (manyC n r').map fun (xs, r'') => (x :: xs, r'')
+
+/-- two automata with the same numbering: equal accepting flags and equal transition *sets* per state -/
+def sameUpToOrder (A B : Dfa) : Bool :=
+  A.trans.length == B.trans.length && A.ends == B.ends && A.prio == B.prio &&
+  (A.trans.zip B.trans).all fun (x, y) => x.all (fun p => y.contains p) && y.all (fun p => x.contains p)
+
 def showWord (w : List Nat) : String := " ".intercalate (w.map toString)
 
 /-- State of the fast (untrusted) explorer: pairs, their index, successor hints, BFS parents. -/
@@ -679,6 +707,50 @@ def step (st : DState) (line : String) : DState × Option String :=
           (st, some "equiv DIFF\nS FAIL the start state of the lookahead automaton is accepting")
         else
           (st, some ("\n".intercalate (runEquiv X Y reps [0] (normP pats) false "equiv")))
+    | _, _ => (st, some "bad-op")
+  | "cpat" :: m :: t :: r =>
+    match m.toNat?, t.toNat?, parseCAst r with
+    | some m, some t, some (a, []) =>
+      ({ st with cpats := (ensure st.cpats m []).modify m fun l => l ++ [(t, a)] }, none)
+    | _, _, _ => (st, some "bad-op")
+  | "clapat" :: m :: t :: r =>
+    match m.toNat?, t.toNat?, parseCAst r with
+    | some m, some t, some (a, []) =>
+      ({ st with clapats := (ensure st.clapats m []).modify m fun l => l ++ [(t, a)] }, none)
+    | _, _, _ => (st, some "bad-op")
+  | ["compilecheck", m] =>
+    -- track A: model of the compiler for mode m against the logged automaton before minimization
+    -- (aux 0, transitions compared as sets) and the final automaton of the dump (exact)
+    match m.toNat? with
+    | some m =>
+      let ps := st.cpats.getD m []
+      let pre := compilePre ps
+      let logged := st.aux.getD 0 emptyDfa
+      let fin := (st.modes.getD m ⟨emptyDfa, []⟩).dfa
+      let n1 := if sameUpToOrder pre logged then "S ok trackA: model of Thompson + closure construction reproduces the automaton before minimization"
+                else s!"S note trackA compiler model differs before minimization (states {pre.trans.length} vs {logged.trans.length})"
+      let mm := minimize pre
+      let n2 := if mm.trans == fin.trans && mm.ends == fin.ends && mm.prio == fin.prio then "S ok trackA: model of the whole compiler reproduces the compiled automaton exactly"
+                else "S note trackA compiler model differs from the compiled automaton"
+      (st, some ("compile done\n" ++ n1 ++ "\n" ++ n2))
+    | none => (st, some "bad-op")
+  | ["compilecheckla", m, t] =>
+    match m.toNat?, t.toNat? with
+    | some m, some t =>
+      match (st.clapats.getD m []).lookup t with
+      | none => (st, some "compile done\nS note trackA no lookahead pattern")
+      | some a =>
+        let pre := compileLaPre a
+        let logged := st.aux.getD 0 emptyDfa
+        let fin := match (st.modes[m]?).bind fun M => M.las.lookup t with
+          | some L => L.dfa
+          | none => emptyDfa
+        let n1 := if sameUpToOrder pre logged then "S ok trackA: lookahead automaton before minimization reproduced"
+                  else s!"S note trackA lookahead model differs before minimization (states {pre.trans.length} vs {logged.trans.length})"
+        let mm := minimize pre
+        let n2 := if mm.trans == fin.trans && mm.ends == fin.ends then "S ok trackA: compiled lookahead automaton reproduced exactly"
+                  else "S note trackA lookahead model differs from the compiled automaton"
+        (st, some ("compile done\n" ++ n1 ++ "\n" ++ n2))
     | _, _ => (st, some "bad-op")
   | ["minimize"] =>
     -- track A: the model of Minimizer::minimize on the logged input against the logged output,
